@@ -151,9 +151,47 @@ func (br *xmpReader) readAttribute(tag *Tag) (attr Attribute, err error) {
 	return attr, err
 }
 
+// skipEq consumes the white space in front of c and c itself (c == 0: only the
+// white space). White space of any length is skipped a window at a time.
+func (br *xmpReader) skipEq(c byte) (err error) {
+	var buf []byte
+	for {
+		if buf, err = br.Peek(maxTagHeaderSize); err != nil {
+			return err
+		}
+		n := 0
+		for n < len(buf) && isSpace(buf[n]) {
+			n++
+		}
+		if n == len(buf) {
+			if _, err = br.Discard(n); err != nil {
+				return err
+			}
+			continue
+		}
+		if c != 0 {
+			if buf[n] != c {
+				return ErrNegativeRead
+			}
+			n++
+		}
+		_, err = br.Discard(n)
+		return err
+	}
+}
+
 // readAttrValue reada an Attributes value from the Tag.
 // Needs improvement for performance
 func (br *xmpReader) readAttrValue(tag *Tag) (buf []byte, err error) {
+	// Eq ::= S? '=' S? - white space may surround the equals sign. It is not
+	// part of the value and does not count towards the window the value must fit.
+	if err = br.skipEq('='); err == nil {
+		err = br.skipEq(0)
+	}
+	if err != nil {
+		err = errors.Wrap(err, "Attr Value")
+		return
+	}
 	d := 0
 	s := maxTagValueSize / 2
 	for {
@@ -162,30 +200,18 @@ func (br *xmpReader) readAttrValue(tag *Tag) (buf []byte, err error) {
 			return
 		}
 
-		// Eq ::= S? '=' S? - white space may surround the equals sign.
-		e := 0
-		for e < len(buf) && isSpace(buf[e]) {
-			e++
-		}
-		q := e + 1
-		for q < len(buf) && isSpace(buf[q]) {
-			q++
-		}
-		if e < len(buf) && buf[e] == '=' && q < len(buf) && (buf[q] == '"' || buf[q] == '\'') {
-			delim := buf[q]
-			i := q + 1
-			if b := bytes.IndexByte(buf[i:], delim); b >= 0 {
-				end := i + b
+		if len(buf) > 0 && (buf[0] == '"' || buf[0] == '\'') {
+			delim := buf[0]
+			if b := bytes.IndexByte(buf[1:], delim); b >= 0 {
+				end := 1 + b
 				// White space may separate the value from what ends the tag.
 				j := end + 1
 				for j < len(buf) && isSpace(buf[j]) {
 					j++
 				}
-				if j+1 >= len(buf) && len(buf) >= s {
-					// What follows the value is not inside the window yet.
-					s += maxTagValueSize
-					continue
-				}
+				// (When the white space runs to the end of the window only the
+				// value is consumed: readAttribute skips white space of any
+				// length and finds the end of the tag.)
 				d = end + 1
 				if j < len(buf) && buf[j] == '>' {
 					d = j + 1
@@ -198,7 +224,7 @@ func (br *xmpReader) readAttrValue(tag *Tag) (buf []byte, err error) {
 				if _, err = br.Discard(d); err != nil {
 					err = errors.Wrap(err, "Attr Value (discard)")
 				}
-				return buf[q+1 : end], err
+				return buf[1:end], err
 			}
 		}
 		s += maxTagValueSize
